@@ -22,8 +22,9 @@ two-phase writer acquisition; `shared` = M, a `Mutex`).
 * (4) **T15.8** the non-blocking commits never wait for A and return the changeset iff the lock is not free.
 
 *Partial by nature*: the theorems are about the protocol; that the real locks implement the micro-steps
-under the real scheduler is sampled by the `stress` run; a recorder for replaying real schedules through
-the driver mode `locks` is described in the report.
+under the real scheduler is sampled: by the `stress` run (end-to-end oracles) and by the lock recorder
+(`vharness lockrec`), whose recorded schedules are replayed step by step through the driver mode `locks`
+(`Props/C15_Conformance.lean`: an accepted log is a run of this LTS).
 -/
 namespace Nomt.C15
 open Nomt.Locks2
@@ -84,9 +85,18 @@ theorem db_change_under_guard (s : S C R W D) (h : Inv1 s) (e : Event R W D) :
           rw [exec_isEff ops s t i rest hi]
           cases he : eff ops i (s.thr t).regs s.db with
           | cont rg db => exact h1 _ _ he
-          | stop r db => simp only [abort]; exact h2 _ _ he
+          | stop r db =>
+            simp only
+            split
+            · exact h2 _ _ he
+            · simp only [abort]; exact h2 _ _ he
       · left
         cases i <;> simp [Instr.isEff] at hi <;> simp only [exec] <;> (try split) <;> simp [abort]
+  | spur t u =>
+    left; simp only [next]
+    split
+    · split <;> simp [abort]
+    · rfl
 
 /-- T15.5c **no writer step while a session is live**: an event that changes the committed state (content,
 root, log, marker or poison flag) happens under the write guard, and then no session is live. -/
@@ -289,8 +299,8 @@ def exHistory : List E :=
    .call 1 (.sessRead 7), .step 1, .step 1,
    .call 1 (.endSession 7), .step 1, .step 1] ++
   steps 2 10 ++
-  [.call 3 (.tryCommit (natCS 0 6) .ok)] ++ steps 3 4 ++         -- takes the guard, root check fails
-  [.call 4 (.rollback 1 .ok)] ++ steps 4 14
+  [.call 3 (.tryCommit (natCS 0 6) .ok)] ++ steps 3 7 ++         -- takes the guard, root check fails, unwinds
+  [.call 4 (.rollback 1 .ok)] ++ steps 4 15
 
 set_option maxRecDepth 8192 in
 example : Good natOps (init (natDb 0)) exHistory := by decide
@@ -401,7 +411,8 @@ def exMarkerToctou : List E :=
   [.call 1 (.ovCommit (natCS 0 5) 1 none .ok)] ++ steps 1 14 ++
   [.call 2 (.ovCommit (natCS 5 7) 2 (some 1) .ok)] ++ steps 2 3 ++          -- marker check passed
   [.call 3 (.commit (natCS 5 9) .ok)] ++ steps 3 11 ++
-  [.call 3 (.rollback 1 .ok)] ++ steps 3 14
+  [.call 3 (.rollback 1 .ok)] ++ steps 3 15
+set_option maxRecDepth 8192 in
 example : let s := run natOps (init (natDb 0)) exMarkerToctou
     s.db.marker = none ∧ s.db.root = 5 ∧
     (run natOps s (steps 2 11)).doneRes.reverse = [.ok, .ok, .ok, .ok] ∧
@@ -415,7 +426,7 @@ example :
     let cs := natCS 3 6
     let sectionF1 : List (Instr Nat Nat Nat) :=
       [.chkPoison, .logPush cs.delta true, .mLock, .chkRoot cs.base, .pubRoot cs.newRoot none, .mUnlock,
-       .store cs.writes true, .aWriteUnlock]
+       .store cs.writes true, .aWriteUnlock .ok]
     (runCS natOps sectionF1 {} (natDb 0)).2 = .errStale ∧ (runCS natOps sectionF1 {} (natDb 0)).1.log = [3] ∧
     (specStep natOps (natDb 0) (.commit cs none false .ok)).2 = .errStale ∧
     (specStep natOps (natDb 0) (.commit cs none false .ok)).1.log = [] := by decide
@@ -424,7 +435,7 @@ example :
 the store is poisoned, thread 2's commit is refused under the guard — and the sequential specification says
 the same. -/
 def exPoison : List E :=
-  [.call 1 (.commit (natCS 0 5) .failStore)] ++ steps 1 9 ++ [.call 2 (.commit (natCS 5 6) .ok)] ++ steps 2 3
+  [.call 1 (.commit (natCS 0 5) .failStore)] ++ steps 1 11 ++ [.call 2 (.commit (natCS 5 6) .ok)] ++ steps 2 5
 example : let s := run natOps (init (natDb 0)) exPoison
     s.doneRes.reverse = [.errIo, .errPoisoned] ∧ s.db.poisoned = true ∧ s.db.root = 5 ∧ s.db.content = 0 ∧
     s.wbit = none ∧ s.m = none := by decide
